@@ -808,7 +808,16 @@ func genHTTPCase(t *rapid.T) *HTTPCase {
 		}
 		req := map[string]interface{}{"query": q}
 		if rapid.IntRange(0, 3).Draw(t, "asbatch") == 0 {
-			b, _ := json.Marshal([]interface{}{req, map[string]interface{}{"query": ops[len(ops)-1]}})
+			elems := []interface{}{req, map[string]interface{}{"query": ops[len(ops)-1]}}
+			if rapid.Bool().Draw(t, "withintro") {
+				elems = append(elems, map[string]interface{}{"query": rapid.SampledFrom(introspectionOps).Draw(t, "introop")})
+			}
+			order := rapid.Permutation(seq(len(elems))).Draw(t, "batchorder")
+			shuffled := make([]interface{}, len(elems))
+			for i, j := range order {
+				shuffled[i] = elems[j]
+			}
+			b, _ := json.Marshal(shuffled)
 			return mkHTTPCase(w, "operation", "application/json", b)
 		}
 		b, _ := json.Marshal(req)
